@@ -12,6 +12,7 @@ import (
 	"bytes"
 	"context"
 	"encoding/json"
+	"encoding/xml"
 	"fmt"
 	"io"
 	"math/rand"
@@ -24,6 +25,7 @@ import (
 	"sort"
 	"strconv"
 	"strings"
+	"syscall"
 	"time"
 
 	app "github.com/Dash-Industry-Forum/livesim2/cmd/cmaf-ingest-receiver/app"
@@ -111,6 +113,7 @@ type l1Obs struct {
 	Stored  int64      `json:"stored"` // number of the media file this upload created or rewrote (-1: none)
 	StoredT int64      `json:"stored_t"` // baseMediaDecodeTime in that file
 	Hang    bool       `json:"hang,omitempty"` // the upload was not answered within the watchdog time
+	Reader  string     `json:"reader,omitempty"` // what went wrong for a reader that had the MPD open across this upload
 	PubErr  string     `json:"pub_err,omitempty"`
 	Started bool       `json:"started"`
 	NrTr    int64      `json:"nrtr"`
@@ -337,6 +340,17 @@ func l1RunScenario(sc l1Scenario, emit func(l1Obs)) {
 	}
 	chDir := filepath.Join(storage, l1Chan)
 	prevMPD := ""
+	// a reader of manifest_timeline_nr.mpd that overlaps the next publication: it opens the file and reads the
+	// first bytes before an upload, and the rest after it
+	var heldF *os.File
+	var heldFirst, heldFull []byte
+	var heldIno uint64
+	mpdPath := filepath.Join(chDir, "manifest_timeline_nr.mpd")
+	defer func() {
+		if heldF != nil {
+			heldF.Close()
+		}
+	}()
 	for _, u := range sc.Ups {
 		t := sc.Tracks[u.Track]
 		var body []byte
@@ -401,6 +415,44 @@ func l1RunScenario(sc l1Scenario, emit func(l1Obs)) {
 		}
 		o.Pub = flatPub(pub)
 		o.PubFull = pub
+		if heldF != nil {
+			rest, _ := io.ReadAll(heldF)
+			heldF.Close()
+			heldF = nil
+			doc := append(append([]byte{}, heldFirst...), rest...)
+			switch {
+			case !bytes.Equal(doc, heldFull):
+				o.Reader = fmt.Sprintf("a reader that opened the MPD (%d bytes) before this upload and read the rest after it got %d bytes that are not the document it opened", len(heldFull), len(doc))
+				if err := xmlWellFormed(doc); err != nil {
+					o.Reader += ": not a complete XML document (" + err.Error() + ")"
+				}
+			case xmlWellFormed(doc) != nil:
+				o.Reader = "the MPD at the published path is not a complete XML document: " + xmlWellFormed(doc).Error()
+			}
+			if st, err := os.Stat(mpdPath); err == nil && pub != nil {
+				if sys, ok := st.Sys().(*syscall.Stat_t); ok && sys.Ino == heldIno && o.Reader == "" {
+					o.Reader = "a new MPD was published into the same file (inode) that readers have open: it was rewritten in place, not replaced"
+				}
+			}
+		}
+		if full, err := os.ReadFile(mpdPath); err == nil {
+			if f, err := os.Open(mpdPath); err == nil {
+				heldF, heldFull = f, full
+				n := 64
+				if n > len(full) {
+					n = len(full)
+				}
+				heldFirst = make([]byte, n)
+				if _, err := io.ReadFull(f, heldFirst); err != nil {
+					heldFirst = heldFirst[:0]
+				}
+				if st, err := f.Stat(); err == nil {
+					if sys, ok := st.Sys().(*syscall.Stat_t); ok {
+						heldIno = sys.Ino
+					}
+				}
+			}
+		}
 		if st, ok := rcv.ChannelState(l1Chan); ok {
 			o.Chan = flatChan(names, st)
 			o.Started = st.Gen.Started
@@ -491,6 +543,26 @@ func l1RunScenario(sc l1Scenario, emit func(l1Obs)) {
 			}
 		}
 		emit(o)
+	}
+}
+
+func xmlWellFormed(doc []byte) error {
+	d := xml.NewDecoder(bytes.NewReader(doc))
+	n := 0
+	for {
+		tok, err := d.Token()
+		if err == io.EOF {
+			if n == 0 {
+				return fmt.Errorf("empty document")
+			}
+			return nil
+		}
+		if err != nil {
+			return err
+		}
+		if _, ok := tok.(xml.StartElement); ok {
+			n++
+		}
 	}
 }
 
@@ -1049,6 +1121,10 @@ func l1Oracle(c *lib.Ctx, id string, sc l1Scenario, obs []l1Obs) {
 		}
 		if o.PubErr != "" {
 			fail(i, "mpd:incomplete-document", o.PubErr)
+			return
+		}
+		if o.Reader != "" {
+			fail(i, "mpd:reader-sees-incomplete-document", o.Reader)
 			return
 		}
 		if u.BadTrack {
